@@ -3,6 +3,7 @@ package main
 import (
 	"fmt"
 	"go/types"
+	mrand "math/rand"
 	"os"
 	"sort"
 	"strings"
@@ -25,21 +26,26 @@ type Engine struct {
 	allowedFn  map[string]bool
 	params     map[string]int
 
-	maxSteps   int
-	maxUnwind  int
-	maxValues  int
-	maxAlloc   int
-	maxPaths   int
-	deadline   time.Time
-	traceCalls bool
-	traceInstr bool
-	siteStats  map[string]int
+	maxSteps      int
+	maxUnwind     int
+	maxValues     int
+	maxAlloc      int
+	maxPaths      int
+	deadline      time.Time
+	traceCalls    bool
+	traceInstr    bool
+	siteStats     map[string]int
 	stopAfterViol int
-	siteMu     sync.Mutex
-	solverKind string
-	solverTO   int
-	nworkers   int
-	seed       int64
+	concrete      *mrand.Rand
+	concMu        sync.Mutex
+	selfDigest    []string
+	selfNondets   []WitnessVal
+	selfStatus    string
+	siteMu        sync.Mutex
+	solverKind    string
+	solverTO      int
+	nworkers      int
+	seed          int64
 
 	methodCache sync.Map
 
@@ -70,46 +76,46 @@ var defaultAllowedFns = []string{
 
 // model redirects: real callee -> harness function (if the harness defines it)
 var defaultRedirects = map[string]string{
-	"compress/flate.NewWriter":                "vfFlateNewWriter",
-	"(*compress/flate.Writer).Write":          "vfFlateWrite",
-	"(*compress/flate.Writer).Flush":          "vfFlateFlush",
-	"(*compress/flate.Writer).Reset":          "vfFlateWReset",
-	"(*compress/flate.Writer).Close":          "vfFlateWClose",
-	"compress/flate.NewReader":                "vfFlateNewReader",
-	"crypto/sha1.New":                         "vfSha1New",
-	"(*encoding/json.Encoder).Encode":         "vfJSONEncode",
-	"encoding/json.NewEncoder":                "vfJSONNewEncoder",
-	"(*encoding/json.Decoder).Decode":         "vfJSONDecode",
-	"encoding/json.NewDecoder":                "vfJSONNewDecoder",
-	"net/http.NewResponseController":          "vfNewResponseController",
-	"(*net/http.ResponseController).Hijack":   "vfHijack",
-	"net/http.Error":                          "vfHTTPError",
-	"net/http.ReadResponse":                   "vfReadResponse",
-	"(*net/http.Request).Write":               "vfRequestWrite",
-	"(*net/http.Request).WithContext":         "vfRequestWithContext",
-	"(*net/http.Request).AddCookie":           "vfRequestAddCookie",
-	"(*net/http.Response).Cookies":            "vfResponseCookies",
-	"net/url.Parse":                           "vfURLParse",
-	"(*net/url.Userinfo).Username":            "vfUserinfoUsername",
-	"(*net/url.Userinfo).Password":            "vfUserinfoPassword",
-	"context.WithTimeout":                     "vfContextWithTimeout",
-	"context.Background":                      "vfContextBackground",
-	"net/http/httptrace.ContextClientTrace":   "vfContextClientTrace",
-	"crypto/tls.Client":                       "vfTLSClient",
-	"(*crypto/tls.Conn).HandshakeContext":     "vfTLSHandshakeContext",
-	"(*crypto/tls.Conn).VerifyHostname":       "vfTLSVerifyHostname",
-	"(*crypto/tls.Conn).ConnectionState":      "vfTLSConnectionState",
-	"(*crypto/tls.Conn).Close":                "vfTLSClose",
-	"(*crypto/tls.Conn).Read":                 "vfTLSRead",
-	"(*crypto/tls.Conn).Write":                "vfTLSWrite",
-	"(*crypto/tls.Conn).SetDeadline":          "vfTLSSetDeadline",
-	"(*crypto/tls.Conn).SetReadDeadline":      "vfTLSSetReadDeadline",
-	"(*crypto/tls.Conn).SetWriteDeadline":     "vfTLSSetWriteDeadline",
-	"(*crypto/tls.Config).Clone":              "vfTLSConfigClone",
-	"golang.org/x/net/proxy.FromURL":          "vfProxyFromURL",
-	"io.NopCloser":                            "vfNopCloser",
-	"bytes.NewReader":                         "",
-	"(*net.Dialer).DialContext":               "vfNetDialerDialContext",
+	"compress/flate.NewWriter":                   "vfFlateNewWriter",
+	"(*compress/flate.Writer).Write":             "vfFlateWrite",
+	"(*compress/flate.Writer).Flush":             "vfFlateFlush",
+	"(*compress/flate.Writer).Reset":             "vfFlateWReset",
+	"(*compress/flate.Writer).Close":             "vfFlateWClose",
+	"compress/flate.NewReader":                   "vfFlateNewReader",
+	"crypto/sha1.New":                            "vfSha1New",
+	"(*encoding/json.Encoder).Encode":            "vfJSONEncode",
+	"encoding/json.NewEncoder":                   "vfJSONNewEncoder",
+	"(*encoding/json.Decoder).Decode":            "vfJSONDecode",
+	"encoding/json.NewDecoder":                   "vfJSONNewDecoder",
+	"net/http.NewResponseController":             "vfNewResponseController",
+	"(*net/http.ResponseController).Hijack":      "vfHijack",
+	"net/http.Error":                             "vfHTTPError",
+	"net/http.ReadResponse":                      "vfReadResponse",
+	"(*net/http.Request).Write":                  "vfRequestWrite",
+	"(*net/http.Request).WithContext":            "vfRequestWithContext",
+	"(*net/http.Request).AddCookie":              "vfRequestAddCookie",
+	"(*net/http.Response).Cookies":               "vfResponseCookies",
+	"net/url.Parse":                              "vfURLParse",
+	"(*net/url.Userinfo).Username":               "vfUserinfoUsername",
+	"(*net/url.Userinfo).Password":               "vfUserinfoPassword",
+	"context.WithTimeout":                        "vfContextWithTimeout",
+	"context.Background":                         "vfContextBackground",
+	"net/http/httptrace.ContextClientTrace":      "vfContextClientTrace",
+	"crypto/tls.Client":                          "vfTLSClient",
+	"(*crypto/tls.Conn).HandshakeContext":        "vfTLSHandshakeContext",
+	"(*crypto/tls.Conn).VerifyHostname":          "vfTLSVerifyHostname",
+	"(*crypto/tls.Conn).ConnectionState":         "vfTLSConnectionState",
+	"(*crypto/tls.Conn).Close":                   "vfTLSClose",
+	"(*crypto/tls.Conn).Read":                    "vfTLSRead",
+	"(*crypto/tls.Conn).Write":                   "vfTLSWrite",
+	"(*crypto/tls.Conn).SetDeadline":             "vfTLSSetDeadline",
+	"(*crypto/tls.Conn).SetReadDeadline":         "vfTLSSetReadDeadline",
+	"(*crypto/tls.Conn).SetWriteDeadline":        "vfTLSSetWriteDeadline",
+	"(*crypto/tls.Config).Clone":                 "vfTLSConfigClone",
+	"golang.org/x/net/proxy.FromURL":             "vfProxyFromURL",
+	"io.NopCloser":                               "vfNopCloser",
+	"bytes.NewReader":                            "",
+	"(*net.Dialer).DialContext":                  "vfNetDialerDialContext",
 	"encoding/base64.(*Encoding).EncodeToString": "",
 }
 
@@ -436,6 +442,15 @@ func (w *worker) record(r pathResult) {
 	e.mu.Lock()
 	defer e.mu.Unlock()
 	res := e.res
+	if e.concrete != nil {
+		e.selfDigest = m.digest
+		e.selfStatus = r.status
+		e.selfNondets = nil
+		for _, n := range m.nondets {
+			val, _ := n.Term.Const()
+			e.selfNondets = append(e.selfNondets, WitnessVal{Name: n.Name, Kind: n.Kind, Value: val, N: n.Extra})
+		}
+	}
 	res.Paths[r.status]++
 	res.Steps += int64(m.steps)
 	if len(m.nondets) > res.Nondets {
@@ -567,4 +582,33 @@ func (m *machine) describePath() string {
 		fmt.Fprintf(&sb, "; last pc conjunct: %s", s)
 	}
 	return sb.String()
+}
+
+func (e *Engine) concreteValue(kind string, w int) uint64 {
+	e.concMu.Lock()
+	defer e.concMu.Unlock()
+	r := e.concrete
+	switch kind {
+	case "i64", "u64":
+		switch r.Intn(10) {
+		case 0:
+			return r.Uint64()
+		case 1:
+			return uint64(int64(-1 - r.Intn(4)))
+		default:
+			return uint64(r.Intn(14))
+		}
+	case "bool":
+		return uint64(r.Intn(2))
+	}
+	return r.Uint64() & mask(maxInt(w, 1))
+}
+
+func (e *Engine) concreteChoice(n int) int {
+	e.concMu.Lock()
+	defer e.concMu.Unlock()
+	if n <= 1 {
+		return 0
+	}
+	return e.concrete.Intn(n)
 }
